@@ -42,6 +42,9 @@ structure KState where
   /-- slow or gated lists answer with the snapshot taken when they were asked: after such a list the cache is only
       per key a past state of the server (the Lean invariant `CCut`) until the re-armed watch has caught up -/
   stale : Bool := false
+  /-- the watch buffers overflowed (changes were lost): until a list of the current state completes, the cache is
+      only per key a past state of the server -/
+  lossy : Bool := false
 
 def stateAt (h : List (Int × EvT × Obj)) (n : Nat) : Items Key Obj :=
   (h.take n).foldl (fun m e => serverApply m e.2.1 e.2.2) []
@@ -65,7 +68,18 @@ def ctrlLine (st : KState) (e : SExp) : KState × String :=
   | .list [.atom "scenario", _, _] => ({}, "ok")
   | .list [.atom "end"] => (st, "ok")
   | _ =>
-  if st.dead then (st, "skip") else
+  -- the lifecycle judgements after Close / cancel do not depend on the model's state: they are made even when an
+  -- earlier observation of the scenario has already been rejected
+  if st.dead then
+    (match e with
+     | .list [.atom "closeroot"] => ({ st with closing := true }, "skip")
+     | .list [.atom "cancel"] => ({ st with closing := true }, "skip")
+     | .list [.atom "close-returned", b] =>
+       if decBool b == some true then (st, "skip") else (st, "reject C12 Close() has not returned at the quiescent point after it was called")
+     | .list [.atom "cobs", _, _, d, _, _, _, _, _, _, _, _] =>
+       if st.closing && decBool d == some false then (st, "reject C12 the controller is not done at the quiescent point after Close/cancel")
+       else (st, "skip")
+     | _ => (st, "skip")) else
   match e with
   | .list [.atom "srv", .atom t, o] =>
     match decEvT t, decObj o with
@@ -78,6 +92,7 @@ def ctrlLine (st : KState) (e : SExp) : KState × String :=
     | none => (st, "bad cstart")
   | .list [.atom "emptyrv"] => ({ st with emptyRV := true }, "ok")
   | .list [.atom "stalelist"] => ({ st with stale := true }, "ok")
+  | .list [.atom "overflow"] => ({ st with lossy := true }, "ok")
   | .list (.atom "advance" :: _) => (st, "ok")
   | .list [.atom "inject", .atom "replay-delete", o] =>
     match decObj o with
@@ -152,7 +167,7 @@ def ctrlLine (st : KState) (e : SExp) : KState × String :=
         if spacingBad.isSome then
           fail s!"reject C13 a list started {(spacingBad.map fun p => p.2.start - p.1.finish)} ms after the previous result, less than {lo}"
         else if !inFlight && now > lastEnd + hi + st.latency + 2000 then
-          fail s!"reject C13 no list call for {now - lastEnd} ms (period {st.period})"
+          fail s!"reject C13/C03 no list call for {now - lastEnd} ms (period {st.period}): relisting has stopped"
         else
         -- C03/C04: the cache is the accepted server state at some point of the history, never going backwards;
         -- with a live watch (or right after a complete list of the current state) it is the current state
@@ -162,13 +177,13 @@ def ctrlLine (st : KState) (e : SExp) : KState × String :=
           -- a spoiled key is either gone or as the server has it
           cache.all (fun o => !spoiled.contains o.key || (viewOf st.filter (stateAt st.history j)).contains o))
         -- after a stale list: per key, the cache holds what the server held for that key at some point
-        let perKey := st.stale &&
+        let perKey := (st.stale || st.lossy) &&
           ((cache.map (·.key)) ++ (st.history.map (·.2.2.key))).eraseDups.all (fun k =>
             spoiled.contains k || (List.range (n + 1)).any (fun j =>
               cache.find? (·.key == k) == (viewOf st.filter (stateAt st.history j)).find? (·.key == k)))
         let candidates := if candidates0.isEmpty && perKey then [st.applied] else candidates0
         -- (a server without list versions restarts every watch "from now": only a list makes the cache current)
-        let mustBeCurrent := ((live > 0 && !st.emptyRV) || listedNow) && !st.inBurst
+        let mustBeCurrent := ((live > 0 && !st.emptyRV && !st.lossy) || listedNow) && !st.inBurst
         -- with watches restarting "from now" changes are lost between sessions: between lists the cache is only
         -- per key a past state; such scenarios are judged at the completed lists (C03) and at readiness (C08)
         if st.emptyRV && !mustBeCurrent then ({ st1 with wasReady := true }, "ok") else
@@ -193,19 +208,22 @@ def ctrlLine (st : KState) (e : SExp) : KState × String :=
             -- C02/C03: the subscriber's events account for the difference
             let before := st.lastCache.getD []
             -- (the content of the first list is not published as events: the mirror starts at readiness)
-            let evOk := !st.wasReady || (match replayObjs ievs before with
+            -- (after an overflow the harness's own subscriber has overrun as well: its stream is not a delta)
+            let evOk := !st.wasReady || st.lossy || (match replayObjs ievs before with
               | some m' => sameObjSet m' cache
               | none => false)
             if !evOk then fail s!"reject C02/C03 subscriber events {showEvs ievs} do not lead from {showObjs before} to {showObjs cache}"
             else
               -- C04: every watch resumes from a version the controller has actually reached
-              let wbad := calls.find? (fun cl => cl.1 == "watch" &&
+              -- (after an overflow the watcher's resume version has moved past the lost changes)
+              let wbad := if st.lossy then none else calls.find? (fun cl => cl.1 == "watch" &&
                 (match cl.2.2.2.toInt? with
                  | some v => v > rvAt st.history (if mustBeCurrent then n else jmax) && v > (match lists.getLast? with | some l => l.rv.toInt?.getD 0 | none => 0)
                  | none => !(st.emptyRV && cl.2.2.2 == "")))
               match wbad with
               | some cl => fail s!"reject C04 Watch was called with resourceVersion {cl.2.2.2}, beyond what the controller has received"
-              | none => ({ st1 with applied := if mustBeCurrent then n else j, wasReady := true }, "ok")
+              | none => ({ st1 with applied := if mustBeCurrent then n else j, wasReady := true,
+                                    lossy := st.lossy && !listedNow }, "ok")
     | _, _, _, _, _ => (st, "bad cobs")
   | _ => (st, "bad line")
 
